@@ -315,6 +315,8 @@ def mk_Circshift(rng, ishape, maxn):
     ishape = ishape or _shape(rng, int(rng.integers(1, 4)), maxn)
     nd = len(ishape)
     axes = _axes_subset(rng, nd)
+    if axes is not None:
+        axes = [int(a) for a in rng.permutation(axes)]
     k = nd if axes is None else len(axes)
     shift = [int(rng.integers(-2 * maxn, 2 * maxn + 1)) for _ in range(k)]
     return {"op": "Circshift", "ishape": ishape, "oshape": list(ishape), "shift": shift,
